@@ -142,7 +142,7 @@ KEYS = [b"k", "k", b"", "", b" ", b"a b", b"a\r\nb", b"a\nget x", b"a\r\nset inj
 VALUES = [b"v", b"", b"\r\n", b"END\r\n", b"x\r\nset inj 0 0 1\r\ny\r\n", "str", "\xe9", 5, -5, True, b"VALUE k 0 1\r\nz\r\nEND\r\n", b"x" * 5000]
 EXPIRES = [0, 1, -1, 2 ** 63 - 1, -2 ** 63, True, False, "5", 5.0, None, b"5"]
 FLAGS = [None, 0, 7, 2 ** 32 - 1, True, "7", "0 0 1\r\nx\r\nset inj 0 0 1", b"7", 1.5]
-CASES = [b"123", 123, "123", b"12 3", b"1\r\n", "١٢", -1, True, b"", b"007", None, "1 noreply"]
+CASES = [b"123", 123, "123", b"12 3", b"1\r\n", "١٢", "１２３", "²", "1٢3", -1, True, b"", b"007", None, "1 noreply"]
 DELTAS = [1, 0, 2 ** 64 - 1, True, "1", 1.0, None, b"1"]
 PREFIXES = [b"", b"p:", b"p ", b"y" * 248, b"\r\n"]
 
@@ -150,7 +150,7 @@ PREFIXES = [b"", b"p:", b"p ", b"y" * 248, b"\r\n"]
 def grid(ctx):
     """(cfg, op) pairs: one argument at a time over its adversarial values, the others benign; plus random mixes"""
     rng = random.Random(ctx.seed * 17 + 2)
-    out = []
+    out, must = [], []          # `must`: the token grids (cas, delta) x configurations are never thinned out
     cfgs = [dict(tcp=False, prefix=p, default_noreply=dn, unicode=u, enc=e, serde=s, ignore_exc=False)
             for p in PREFIXES for dn in (False, True) for u in (False, True) for e in (0, 1) for s in (0, 1)]
     base = cfgs[0]
@@ -172,9 +172,9 @@ def grid(ctx):
         for f in FLAGS:
             out += [(c, (0, 0, b"k", b"v", 0, False, f)), (c, (1, [(b"a", b"1"), (b"b", b"2")], 0, False, f)), (c, (2, b"k", b"v", b"1", 0, False, f))]
         for x in CASES:
-            out.append((c, (2, b"k", b"v", x, 0, False, None)))
+            must.append((c, (2, b"k", b"v", x, 0, False, None)))
         for d in DELTAS:
-            out += [(c, (11, b"k", d, False)), (c, (12, b"k", d, True)), (c, (14, d, None))]
+            must += [(c, (11, b"k", d, False)), (c, (12, b"k", d, True)), (c, (14, d, None))]
     for _ in range(300 if ctx.quick else 3000):
         c = rng.choice(cfgs)
         k = rng.choice(KEYS) if rng.random() < 0.5 else bytes(rng.randrange(256) for _ in range(rng.randrange(0, 6)))
@@ -186,7 +186,8 @@ def grid(ctx):
               13: (13, k, e, n)}[code]
         out.append((c, op))
     if ctx.quick:
-        out = out[::3]
+        out = out[::2]
+    out = must + out
     # with the pickle serde only bytes/str/int values are inside the model's (and this oracle's) domain
     from harness import gens
     out = [(c, gens.native_only([op])[0] if c.get("serde") == 1 else op) for c, op in out]
